@@ -188,7 +188,7 @@ def run(ctx: Ctx) -> dict:
         if z - a not in (1, 2) or not all(c.isdigit() for c in good[0][a:z]):
             continue
         extreme = [b for b in good if b[a:z] in ("02", "97", "98", "00", "01", "99", "0", "1", "9")]
-        for b in extreme[:4 if ctx.quick else 40] + good[:2 if ctx.quick else 20]:
+        for b in extreme[:3 if ctx.quick else 40] + good[:1 if ctx.quick else 20]:
             for v in range(10 ** (z - a)):
                 g = b[:a] + str(v).zfill(z - a) + b[z:]
                 ops.append({"op": "iban.new", "t": cps(iban_of(cc, g)), "vb": True})
